@@ -106,6 +106,19 @@ func newCbLog() *cbLog {
 		sessOpen: map[*gortsplib.ServerSession]int{}, sessClose: map[*gortsplib.ServerSession]int{}, closedAt: map[*gortsplib.ServerSession]int64{}}
 }
 
+// openConns returns the connections whose OnConnOpen was seen and whose OnConnClose was not.
+func (l *cbLog) openConns() []*gortsplib.ServerConn {
+	l.mu.Lock()
+	defer l.mu.Unlock()
+	var out []*gortsplib.ServerConn
+	for sc, n := range l.connOpen {
+		if n > l.connClose[sc] {
+			out = append(out, sc)
+		}
+	}
+	return out
+}
+
 func (l *cbLog) onEvent(e rig.Event) {
 	l.mu.Lock()
 	defer l.mu.Unlock()
@@ -220,7 +233,12 @@ func runCase(c caseSpec) {
 				// while the session closes must be finished (or never started) before
 				// OnSessionClose is delivered
 				log.packet(ss)
-				time.Sleep(300 * time.Microsecond)
+				if c.Action == "conn-kick" {
+					// slower than the publisher writes: frames pile up in the connection's read buffer
+					time.Sleep(2 * time.Millisecond)
+				} else {
+					time.Sleep(300 * time.Microsecond)
+				}
 				log.packet(ss)
 			}
 		},
@@ -471,6 +489,13 @@ func runCase(c caseSpec) {
 		streamClosed = true
 	case "client-close", "peer-disconnect":
 		closeClients()
+	case "conn-kick":
+		// the application closes the connections from its side (ServerConn.Close) while their
+		// readers still hold undelivered frames
+		for _, sc := range log.openConns() {
+			sc := sc
+			timed("ServerConn.Close", c, func() { sc.Close() })
+		}
 	case "both":
 		var wg sync.WaitGroup
 		wg.Add(2)
@@ -570,8 +595,8 @@ func cases() []caseSpec {
 		"raw-half":   {{"tcp", false}},
 	}
 	actions := map[string][]string{
-		"play":       {"server-close", "stream-close", "client-close", "both"},
-		"record":     {"server-close", "client-close", "both"},
+		"play":       {"server-close", "stream-close", "client-close", "both", "conn-kick"},
+		"record":     {"server-close", "client-close", "both", "conn-kick"},
 		"raw-noread": {"server-close", "stream-close", "peer-disconnect", "both"},
 		"raw-half":   {"server-close", "peer-disconnect"},
 	}
